@@ -706,6 +706,49 @@ mod imp {
         f
     }
 
+    /// One CallGlobal site, global 0 bound to callee A, called, unbound through a non-object value (or rebound directly),
+    /// garbage, bound to a fresh callee B, called again through the same site.  The register that held A is cleared, so A
+    /// is garbage at the next collection and B can land in A's heap slot.
+    #[allow(clippy::too_many_arguments)]
+    pub fn rebind_fn(unbind: u32, closure: bool, big_alloc: bool, a_consts: usize, b_consts: usize, rounds: u32) -> Function {
+        let mk = |name: &str, nconsts: usize, ret: i32| {
+            let mut f = Function::new(Some(name.into()), 0);
+            f.num_registers = 2;
+            for k in 0..nconsts {
+                f.constants.push(Value::int(7000 + k as i64));
+            }
+            let first = if nconsts > 0 { ins_imm(2, 0, (nconsts - 1) as i32) } else { ins_imm(1, 0, ret) };
+            set_code(&mut f, vec![first, ins(22, 0, 0, 0)]);
+            f
+        };
+        let mut m = Function::new(Some("main".into()), 0);
+        m.num_registers = 10;
+        m.constants = vec![Value::nested_fn_marker(0), Value::nested_fn_marker(1), Value::int(140_000), Value::int(1000)];
+        m.nested_functions = vec![mk("first", a_consts, 111), mk("second", b_consts, 222)];
+        let load = |r: u32, k: u32| if closure { ins(35, r, k, 0) } else { ins_imm(2, r, k as i32) };
+        let mut c = vec![
+            ins_imm(1, 3, 0),                 // 0  r3 = pass counter
+            load(0, 0),                       // 1  r0 = A
+            ins_imm(76, 0, 0),                // 2  L0: global[0] = r0
+            ins(3, 0, 0, 0),                  // 3  r0 = null (drop the reference)
+            ins(77, 1, 0, 0), 0, 0,           // 4  r1 = global[0]()
+            ins(42, 3, 3, 1),                 // 7  r3 += 1
+            ins_imm(1, 8, rounds as i32),     // 8
+            ins(13, 9, 3, 8),                 // 9  r9 = r3 < rounds   (Lt)
+            ins_imm(20, 9, 7),                // 10 JumpIfNot r9 -> 18
+        ];
+        c.push(match unbind { 0 => ins(3, 2, 0, 0), 1 => ins_imm(1, 2, 5), 2 => ins(4, 2, 1, 0), _ => ins(0, 2, 2, 0) }); // 11 r2 = null / int / bool / (keep)
+        c.push(if unbind < 3 { ins_imm(76, 2, 0) } else { ins(0, 2, 2, 0) });                                                // 12 global[0] = r2
+        c.push(if big_alloc { ins_imm(2, 4, 2) } else { ins_imm(1, 4, 3) });                                                  // 13
+        c.push(ins(130, 5, 4, 0));                                                                                            // 14 garbage array
+        c.push(ins(3, 5, 0, 0));                                                                                              // 15
+        c.push(load(0, 1));                                                                                                   // 16 r0 = B
+        c.push(ins_imm(18, 0, 2 - 18));                                                                                       // 17 -> L0
+        c.push(ins(22, 1, 0, 0));                                                                                             // 18 return r1
+        set_code(&mut m, c);
+        m
+    }
+
     fn new_vm() -> VM {
         aelys_driver::new_vm_with_config(Default::default(), Vec::new()).ok().expect("vm")
     }
@@ -794,6 +837,24 @@ mod imp {
                 }
             }
             println!("FROMU8\t{}", acc.join(" "));
+            return;
+        }
+        if let Some(file) = arg("--aasm") {
+            // an assembly file: assembled by the real assembler, run without and with a collection at every safepoint
+            let text = std::fs::read_to_string(&file).expect("aasm");
+            for gc in [0u8, 2] {
+                match aelys_bytecode::asm::assemble_from_string(&text) {
+                    Ok((fs, mut h)) => {
+                        let mut vm = new_vm();
+                        if let (Some(mut f), Ok(remap)) = (fs.into_iter().next(), vm.merge_heap(&mut h)) {
+                            f.remap_constants(&remap);
+                            run_case_gc(&format!("aasm-gc{}", gc), &mut vm, &f, gap, budget, 1000, &format!("aasm:gc{}", gc), gc);
+                        }
+                    }
+                    Err(_) => println!("E\tassemble-failed\t{}", file),
+                }
+            }
+            print_hist();
             return;
         }
         if let Some(file) = arg("--src") {
@@ -901,6 +962,22 @@ mod imp {
                 let load_leaf = if leaf_is_closure { ins(35, 2, 0, 0) } else { ins_imm(2, 2, 0) };
                 set_code(&mut main, vec![load_leaf, ins(35, 5, 1, 1), ins(21, 6, 5, 0), ins(22, 6, 0, 0)]);
                 run_case(&format!("u{}c{}", op, leaf_is_closure as u8), &mut vm, &main, gap, budget, nfirst, &format!("sweep:upvalcall{}", op));
+            }
+            // rebinding the callee of one call site through a non-object value, with garbage and slot reuse in between
+            for unbind in 0..4u32 {
+                for closure in [false, true] {
+                    for big in [false, true] {
+                        for (ac, bc) in [(64usize, 0usize), (0, 64), (3, 3)] {
+                            for gc in [0u8, 2] {
+                                let mut vm = new_vm();
+                                let f = rebind_fn(unbind, closure, big, ac, bc, 3);
+                                run_case_gc(&format!("r{}{}{}a{}g{}", unbind, closure as u8, big as u8, ac, gc), &mut vm, &f, gap, budget, nfirst,
+                                            &format!("rebind:unbind{}:{}:{}:a{}b{}{}", unbind, if closure { "closure" } else { "function" },
+                                                     if big { "bigalloc" } else { "smallalloc" }, ac, bc, if gc == 2 { ":gc" } else { "" }), gc);
+                            }
+                        }
+                    }
+                }
             }
             // random call-site-cache histories under a collection at every safepoint: one call site, a global that is
             // rebound to fresh closures / plain functions, calls skipped, garbage of several kinds in between
